@@ -7,6 +7,12 @@ cut-off-80 result (the documented truncation threshold is 1 - 1e-6 of the state;
 of magnitude of slack), everything else in the world is untouched, the call returns.
 """
 import multiprocessing as mp
+
+
+def _pool_init():
+    from .explorer import _watch_parent
+    _watch_parent()
+
 import os
 
 import numpy as np
@@ -194,7 +200,7 @@ def run_grid(tier, seed):
     viol = []
     fids = []
     errors = []
-    with ctx.Pool(nproc) as pool:
+    with ctx.Pool(nproc, initializer=_pool_init) as pool:
         for r in pool.imap_unordered(_case, cases, chunksize=2):
             if r["fid"] is not None:
                 fids.append(r["fid"])
